@@ -301,6 +301,35 @@ def val_compose(ctx: Ctx) -> RuleResult:
         r.violate("BaseDAG.compose: a needed DAG input that is not provided is not refused", amd.loc(), "ValueError expected", None)
     okdi = len(di) == 1 and "not in self.results" in norm_src(di[0].value)
     r.ob(okdi, {"inputs without default": norm_src(di[0].value) if di else None})
+    # `inputs=...` stands for EVERY argument of the original DAG (defaulted ones included)
+    ell = [n for n in iter_own_nodes(f.node) if isinstance(n, ast.Compare) and len(n.ops) == 1 and isinstance(n.ops[0], (ast.Is, ast.Eq))
+           and isinstance(n.comparators[0], ast.Constant) and n.comparators[0].value is Ellipsis]
+    if ell:
+        from .ref import _innermost_stmt
+
+        holder = None
+        for n in iter_own_nodes(f.node):
+            if isinstance(n, ast.IfExp) and n.test is ell[0]:
+                holder = n.body
+            elif isinstance(n, ast.If) and n.test is ell[0] and n.body and isinstance(n.body[0], ast.Assign):
+                holder = n.body[0].value
+        if holder is not None:
+            v = holder
+            if isinstance(v, ast.Name):
+                dfn = [x for x in iter_own_nodes(f.node) if isinstance(x, ast.Assign) and dotted(x.targets[0]) == v.id]
+                v = dfn[0].value if len(dfn) == 1 else v
+            full = isinstance(v, (ast.ListComp, ast.GeneratorExp)) and "self.input_uxns" in norm_src(v.generators[0].iter) \
+                and not v.generators[0].ifs
+            filtered_ = isinstance(v, (ast.ListComp, ast.GeneratorExp)) and "self.input_uxns" in norm_src(v.generators[0].iter) \
+                and bool(v.generators[0].ifs)
+            r.ob(full, {"'...' stands for": norm_src(v)[:80]})
+            if filtered_:
+                r.violate("BaseDAG.compose: '...' stands for a filtered subset of the DAG's arguments", f.loc(holder),
+                          "compose(name, ..., outputs) must expose every argument of the original DAG; with the defaulted ones left "
+                          "out the composed DAG refuses the values the original accepts (TypeError: takes a maximum of N arguments)",
+                          norm_src(v)[:100])
+            elif not full:
+                raise Undecided("compose: what '...' stands for is not recognised: " + norm_src(v)[:80])
     # ambiguous alias
     gs = ctx.method("BaseDAG", "_get_single_xn_by_alias")
     def _many(t: ast.AST) -> bool:
